@@ -20,6 +20,13 @@ CHECKS['C06'] = dict(technique='runtime monitoring: AstVm differential oracle (b
                   'AstVm before and after the real desugar_blocks pass from many register states; call log with real times, final time/real_time and all registers must agree. Quick ~3k bodies.',
              note='Trusts AstVm for both forms. Time labels are kept monotone along the text (time never runs ahead of a statement label) and loop counts non-negative; goto is not among the constructs quantified.',
              design='3/C06')
+CHECKS['C07'] = dict(technique='runtime monitoring: AstVm differential oracle (raise with blocks vs raise without blocks) + recompile-equality of both forms',
+             text='Exploration. Instruction streams from lowered structured bodies and from random flat jump graphs (overlapping loops, shared end labels, multi-referrer labels, explicit-time '
+                  'jumps, interrupt labels, both counting-jump flavours) are raised with block recovery off and on (+postprocess); both ASTs are executed in AstVm from many states and both printed '
+                  'forms are re-parsed and re-lowered: traces must agree and, when both recompile, the instructions must be identical.',
+             note='Trusts AstVm; where the block form contains a jump into a nested block the comparison runs on its desugaring (relies on C06). Streams with explicit-time jumps are decided by the '
+                  'recompile-equality oracle only (AstVm block-time rule is inexact when time runs ahead of labels). Difficulty-tagged jumps are not generated (TestLanguage has no difficulty).',
+             design='3/C07')
 WIP = {}  # property -> reason (not claimed)
 
 def main():
